@@ -5,8 +5,10 @@ from __future__ import annotations
 import ast
 import math
 
+from typing import Dict
+
 from ..astutil import (
-    call_name, calls_in, dotted, enclosing_stmt, enclosing_try, guard_atoms, lexical_guards, name_stores,
+    ancestors, call_name, calls_in, dotted, enclosing_stmt, enclosing_try, guard_atoms, lexical_guards, name_stores,
     raised_name, unparse, walk_local,
 )
 from ..evalx import Evaluator, Sym
@@ -130,46 +132,8 @@ def _eval_arith(e, env):
     raise KeyError(unparse(e))
 
 
-@R.rule("C12-R1", floor=9, template="T-SIBLING/T-FLOW",
-        desc="compiler-level batching: same slice bound read and consumed on both parallel lists, one yield and one "
-             "counter increment per round, batch fields carry the matching slices, total_batches == number of "
-             "rounds, row-at-a-time branch pairs the two lists one to one")
-def r1(ctx):
-    f = ctx.func(CB)
-    g = ctx.cfg(f)
-    pm = f.module.parents()
-    fields = _batch_fields(ctx)
-    base = f.key
-    params_p, cparams_p = f.params[2], f.params[3]
-    # the two working lists: local = list(<param>)
-    work = {}
-    for n, v, st in name_stores(f.node):
-        v2 = _strip_cast(v) if v is not None else None
-        if isinstance(v2, ast.Call) and call_name(v2) == "list" and len(v2.args) == 1 and isinstance(v2.args[0], ast.Name) \
-                and v2.args[0].id in (params_p, cparams_p):
-            work[v2.args[0].id] = n
-    ctx.require(set(work) == {params_p, cparams_p}, f"working copies list({params_p}) / list({cparams_p}) not found ({work})")
-    L, CL = work[params_p], work[cparams_p]
-    def _loop_test_list(t):
-        """`while L:` / `while len(L) > 0:` / `while len(L):` / `while L != []:` -> L"""
-        t = _strip_cast(t)
-        if isinstance(t, ast.Name):
-            return t.id
-        if isinstance(t, ast.Call) and call_name(t) == "len" and len(t.args) == 1 and isinstance(t.args[0], ast.Name):
-            return t.args[0].id
-        if isinstance(t, ast.Compare) and len(t.ops) == 1:
-            l, r = t.left, t.comparators[0]
-            if isinstance(l, ast.Call) and call_name(l) == "len" and len(l.args) == 1 and isinstance(l.args[0], ast.Name) \
-                    and isinstance(r, ast.Constant) and (
-                        (isinstance(t.ops[0], (ast.Gt, ast.NotEq)) and r.value == 0) or (isinstance(t.ops[0], ast.GtE) and r.value == 1)):
-                return l.args[0].id
-            if isinstance(l, ast.Name) and isinstance(t.ops[0], ast.NotEq) and isinstance(r, ast.List) and not r.elts:
-                return l.id
-        return None
-
-    loops = [n for n in walk_local(f.node) if isinstance(n, ast.While) and _loop_test_list(n.test) in (L, CL)]
-    ctx.require(len(loops) == 1, f"batch loop `while {L}:` not found")
-    w = loops[0]
+def _r1_slices(ctx, f, w, base, L, CL):
+    """idiom A, clause (a): both working lists are read as a head slice and consumed with the same bound"""
     # (a) slices
     reads, dels = {}, {}
 
@@ -233,38 +197,12 @@ def r1(ctx):
         # disagreeing bounds were reported above; the remaining clauses are judged against the read bound
         ub = reads[L][1][1]
         bound = ub if ub.isidentifier() else None
-    # (b) exactly one yield / one counter increment per round
-    tnode = g.nodes_for(w)
-    ctx.require(len(tnode) == 1, "while test node not unique")
-    starts = [b for b, lab in g.succ[tnode[0]] if lab == "true"]
-    ynodes = [n.id for n in g.nodes if n.kind == "stmt" and isinstance(n.stmt, ast.Expr) and isinstance(n.stmt.value, ast.Yield)
-              and any(a is w for a in _ancestors(pm, n.stmt))]
-    ctx.require(ynodes, "no yield in the batch loop")
+    return reads, bound
 
-    def once(nodes, what, key):
-        miss = g.must_pass(starts, tnode, nodes, edge_ok=lambda a, b, l: l != "exc")
-        twice = None
-        for y in nodes:
-            p = g.witness([y], nodes, avoid=tnode, edge_ok=lambda a, b, l: l != "exc")
-            if p is not None:
-                twice = g.describe_path(p)
-        ctx.check(miss is None and twice is None, key,
-                  f"{what} does not happen exactly once per round ({'a round can skip it' if miss else 'it can happen twice in a round'})",
-                  f"exactly once per round", f"{f.module.path}:{w.lineno}", miss or twice)
 
-    once(ynodes, "yield of the batch", f"{base}:one-yield-per-round")
-    ycall = _yielded_ctor(g.node(ynodes[0]).stmt.value.value, w)
-    ctx.require(isinstance(ycall, ast.Call) and (call_name(ycall) or "").endswith("_InsertManyValuesBatch"), "batch loop does not yield _InsertManyValuesBatch(...)")
-    ya = _ctor_args(ycall, fields)
-    counter = ya.get("batchnum")
-    ctx.require(isinstance(counter, ast.Name), "batchnum field is not a local counter")
-    incs = [n.id for n in g.nodes if n.kind == "stmt" and isinstance(n.stmt, ast.AugAssign) and isinstance(n.stmt.target, ast.Name)
-            and n.stmt.target.id == counter.id and isinstance(n.stmt.op, ast.Add) and unparse(n.stmt.value) == "1"
-            and any(a is w for a in _ancestors(pm, n.stmt))]
-    if not incs:
-        ctx.violation(f"{base}:counter-once-per-round", f"batch counter `{counter.id}` is never incremented in the batch loop", f"{f.module.path}:{w.lineno}")
-    else:
-        once(incs, f"`{counter.id} += 1`", f"{base}:counter-once-per-round")
+def _r1_fields_and_total(ctx, f, g, w, base, L, CL, params_p, cparams_p, reads, bound, ya, ycall):
+    """idiom A, clauses (c) batch fields, (d) total_batches, page size stable"""
+    pm = f.module.parents()
     # (c) the yielded batch carries the slices: the `batch` field IS the parameter slice (possibly through an alias),
     # `sentinel_values` is computed from the compiled slice and from nothing that depends on the parameter slice
     # (locals assigned in the round -- `vals = [...] if f else []` before the yield -- are followed)
@@ -339,6 +277,301 @@ def r1(ctx):
         ctx.check(not late, f"{base}:bound-stable",
                   f"the page size `{bound}` is reassigned after `{unparse(tb)}` was computed: {late}",
                   f"`{bound}` fixed before the first round", f.loc)
+
+
+def _zips(it, names) -> bool:
+    return any(isinstance(c, ast.Call) and (call_name(c) or "").rsplit(".", 1)[-1] in ("zip", "zip_longest")
+               and {unparse(_strip_cast(a)) for a in c.args} >= set(names) for c in ast.walk(it))
+
+
+def _batch_loops(f, pm, params_p, cparams_p):
+    """outermost loops that yield and are not the row-at-a-time loop (`for .. in zip(parameters, compiled_parameters)`)"""
+    out = [n for n in walk_local(f.node) if isinstance(n, (ast.For, ast.While)) and any(isinstance(x, ast.Yield) for x in ast.walk(n))
+           and not (isinstance(n, ast.For) and _zips(n.iter, (params_p, cparams_p)))]
+    return [n for n in out if not any(m is not n and any(a is m for a in _ancestors(pm, n)) for m in out)]
+
+
+# models of the open inputs met while executing the bookkeeping (limits read from the dialect / the compiled statement:
+# insertmanyvalues_max_parameters, number of bind names, parameters per row), by order of first use; which input plays
+# which part is not known, so every arrangement of each triple is tried and the arrangements that make no sense
+# (a page of less than one row) are discarded
+_OPEN_INPUT_MODELS = [(20, 7, 5), (12, 4, 3), (9, 2, 2), (50, 10, 6), (7, 3, 3), (3, 1, 1), (2, 1, 1), (30, 1, 4)]
+
+
+def _r1_by_execution(ctx, f, pm, w, base, params_p, cparams_p, ya, report_all):
+    """The bookkeeping that decides which parameter sets each yielded batch carries -- working lists, page size and every
+    reduction of it, offsets, counters, total_batches -- is *executed* (program slice of the function w.r.t. the yielded
+    fields and the loop control, everything else dropped) for many (number of parameter sets, page size, open inputs).
+    Required of every run: the batches, concatenated, are the parameter sets in order, each exactly once; the compiled
+    parameter sets the sentinel values are taken from are the ones of the same rows; batchnum counts 1..n;
+    total_batches == n; current_batch_size == len(batch); no batch is larger than the page size."""
+    from . import _helpers_str2_e as SE
+    import itertools
+    ctx.require(len(f.params) > 5, "page size parameter of _deliver_insertmanyvalues_batches not found")
+    size_p = f.params[5]
+    try:
+        path = SE.path_to(f.node.body, w)
+    except SE.Unsupported as e:
+        ctx.error(f"batch loop: {e}")
+    ctx.require(path is not None, "batch loop is not reached from the function body")
+    # locals bound in a round to a slice of something: the candidates for 'the rows of this batch'
+    slice_locals = set()
+    for st in ast.walk(w):
+        if isinstance(st, (ast.Assign, ast.AnnAssign)) and getattr(st, "value", None) is not None:
+            tg = st.targets[0] if isinstance(st, ast.Assign) and len(st.targets) == 1 else (st.target if isinstance(st, ast.AnnAssign) else None)
+            pairs = [(tg, st.value)]
+            if isinstance(tg, (ast.Tuple, ast.List)) and isinstance(st.value, (ast.Tuple, ast.List)) and len(tg.elts) == len(st.value.elts):
+                pairs = list(zip(tg.elts, st.value.elts))
+            for t, v in pairs:
+                v = _strip_cast(v)
+                if isinstance(t, ast.Name) and isinstance(v, ast.Subscript) and isinstance(v.slice, ast.Slice) and isinstance(_strip_cast(v.value), ast.Name):
+                    slice_locals.add(t.id)
+    judged = {k: ya.get(k) for k in ("batch", "batchnum", "total_batches", "current_batch_size")}
+    ctx.require(all(v is not None for v in judged.values()), f"fields of the yielded batch not understood ({sorted(k for k, v in judged.items() if v is None)})")
+    sv = ya.get("sentinel_values")
+    sv_slices = (RD.dep_closure(f.node, w, [sv], stop=slice_locals) & slice_locals) if sv is not None else set()
+    seeds = {x.id for e in judged.values() for x in ast.walk(e) if isinstance(x, ast.Name)} | slice_locals
+    if isinstance(w, ast.While):
+        seeds |= {x.id for x in ast.walk(w.test) if isinstance(x, ast.Name)}
+    else:
+        seeds |= {x.id for x in ast.walk(w.iter) if isinstance(x, ast.Name)} | {x.id for x in ast.walk(w.target) if isinstance(x, ast.Name)}
+    builtin_names = {"len", "list", "tuple", "range", "min", "max", "cast", "int", "bool", "divmod", "abs", "enumerate", "zip", "math", "sorted", "reversed"}
+    rel = SE.relevant_closure(path, seeds, ignore=builtin_names)
+    try:
+        prog = SE.prune(path, rel)
+    except SE.Unsupported as e:
+        ctx.error(f"bookkeeping of the batch loop: {e}")
+
+    class Invalid(Exception):
+        pass
+
+    class Run(SE.Conc):
+        def __init__(self, vector):
+            super().__init__({"math": SE.Obj("math", ceil=__import__("math").ceil, floor=__import__("math").floor)}, budget=20000)
+            self.vector = vector
+            self.out = []
+
+        def missing_attr(self, obj, attr):
+            child = SE.Free(f"{obj.name}.{attr}")
+            obj.attrs[attr] = child
+            return child
+
+        def free_value(self, fr, kind):
+            if self.vector is None:
+                return 0
+            return self.vector[(len(self.free_order) - 1) % len(self.vector)]
+
+        def note_slice(self, box, k, e):
+            if isinstance(k, slice) and isinstance(box, list) and k.stop is not None and k.step is None:
+                if k.stop - (k.start or 0) < 1 or (k.start or 0) < 0:
+                    raise Invalid()
+
+        def on_yield(self, node, env):
+            rec = {k: self.ev(v, env) for k, v in judged.items()}
+            rec["slices"] = {n: list(env[n]) for n in sv_slices if isinstance(env.get(n), (list, tuple))}
+            rec["batch"] = list(rec["batch"]) if isinstance(rec["batch"], (list, tuple)) else rec["batch"]
+            self.out.append(rec)
+
+    def one(rows, size, vector):
+        """-> (yielded records, free inputs used) | None for a model that makes no sense"""
+        it = Run(vector)
+        env = {}
+        for p_ in f.params:
+            env[p_] = SE.Free(p_)
+        env[f.params[0]] = SE.Obj(f.params[0])
+        env[params_p] = list(range(rows))
+        env[cparams_p] = [1000 + i for i in range(rows)]
+        env[size_p] = size
+        try:
+            it.call(ast.FunctionDef(name="slice", args=f.node.args, body=prog, decorator_list=[], lineno=0, col_offset=0), env)
+        except Invalid:
+            return None
+        except SE.ModelRaise as e:
+            if "ZeroDivisionError" in e.what:
+                return None
+            raise SE.Unsupported(f"the bookkeeping raises on the model: {e.what}")
+        if any(isinstance(v, int) and not isinstance(v, bool) and v < 0 for v in it.free_values.values()):
+            return None
+        return it.out, dict(it.free_values)
+
+    vectors = [None] + list(_OPEN_INPUT_MODELS) + sorted({perm for v in _OPEN_INPUT_MODELS for perm in itertools.permutations(v)} - set(_OPEN_INPUT_MODELS))
+    problems = {}      # key suffix -> (first text, seen in a run without open inputs?)
+    runs = shrunk = 0
+
+    def problem(key, text, plain):
+        cur = problems.get(key)
+        problems[key] = (cur[0] if cur else text, (cur[1] if cur else False) or plain)
+
+    try:
+        for vector in vectors:
+            grid = [(r, s) for r in range(1, 25) for s in range(1, 9)] if vector is None else [(r, s) for r in (1, 5, 10, 11) for s in (3, 4, 10)]
+            used_any = False
+            for rows, size in grid:
+                res = one(rows, size, vector)
+                if res is None:
+                    continue
+                out, free = res
+                if vector is not None and not free:
+                    break  # nothing open is read: the runs without open inputs said it all
+                used_any = True
+                runs += 1
+                plain = vector is None
+                P, C = list(range(rows)), [1000 + i for i in range(rows)]
+                where = f"{rows} parameter sets, page size {size}" + ("" if plain else f", open inputs {free}")
+                batches = [r["batch"] for r in out]
+                if not all(isinstance(b, list) for b in batches):
+                    raise SE.Unsupported(f"field `batch` of the yielded object is not a list on the model ({batches[:1]})")
+                if not plain and batches and max(len(b) for b in batches) < min(size, rows):
+                    shrunk += 1
+                flat = [x for b in batches for x in b]
+                if flat != P:
+                    lost = [x for x in P if x not in flat]
+                    dup = sorted({x for x in flat if flat.count(x) > 1})
+                    problem("slice:parameters", f"{where}: the {len(batches)} batch(es) carry parameter sets {_brief(flat)}"
+                            + (f", sets {_brief(lost)} are never delivered" if lost else "") + (f", sets {_brief(dup)} more than once" if dup else ""), plain)
+                if any(len(b) > size for b in batches):
+                    problem("slice:parameters", f"{where}: a batch of {max(len(b) for b in batches)} rows exceeds the page size", plain)
+                cs = []
+                for r in out:
+                    comp = [v for v in r["slices"].values() if v and all(isinstance(x, int) and x >= 1000 for x in v)]
+                    par = [n for n, v in r["slices"].items() if v and any(isinstance(x, int) and x < 1000 for x in v)]
+                    if par:
+                        problem("batch-fields", f"{where}: sentinel_values is computed from `{par[0]}`, which holds rows of `{params_p}`, not of `{cparams_p}`", plain)
+                    cs.append(comp[0] if comp else [])
+                if sv is not None and not sv_slices:
+                    problem("batch-fields", f"sentinel_values `{unparse(sv)[:50]}` does not read a per-round slice of `{cparams_p}`", True)
+                elif [x for c in cs for x in c] != C:
+                    problem("slice:compiled_parameters", f"{where}: the compiled parameter sets read for the batches are {_brief([x - 1000 for c in cs for x in c])}", plain)
+                if any([x - 1000 for x in c] != b for c, b in zip(cs, batches)) and sv_slices:
+                    k = next(i for i, (c, b) in enumerate(zip(cs, batches)) if [x - 1000 for x in c] != b)
+                    problem("slice:same-bound", f"{where}: batch {k + 1} carries parameter sets {_brief(batches[k])} but the compiled sets of rows {_brief([x - 1000 for x in cs[k]])}", plain)
+                nums = [r["batchnum"] for r in out]
+                if nums != list(range(1, len(out) + 1)):
+                    problem("counter-once-per-round", f"{where}: batchnum takes the values {nums[:6]}", plain)
+                tot = sorted({r["total_batches"] for r in out}, key=repr)
+                if tot != [len(out)] and out:
+                    problem("total-batches", f"{where}: total_batches is {tot[0] if len(tot) == 1 else tot} but {len(out)} batch(es) are delivered"
+                            + ("" if flat == P else f" ({len(flat)} of {rows} parameter sets)"), plain)
+                if any(r["current_batch_size"] != len(r["batch"]) for r in out):
+                    k = next(i for i, r in enumerate(out) if r["current_batch_size"] != len(r["batch"]))
+                    problem("batch-fields", f"{where}: current_batch_size is {out[k]['current_batch_size']} for a batch of {len(batches[k])} rows", plain)
+            if vector is not None and not used_any and runs:
+                continue
+    except SE.Unsupported as e:
+        ctx.error(f"the bookkeeping of the batch loop cannot be executed on the model: {e}")
+    ctx.require(runs >= 100, f"only {runs} model executions of the batch loop made sense")
+    loc = f"{f.module.path}:{w.lineno}"
+    # a clause that only fails once an open input reduced the page size: something was computed from the page size too early
+    stale = {k: v for k, v in problems.items() if not v[1]}
+    ok_detail = f"{runs} model executions ({shrunk} with a page size reduced by the dialect's parameter limit)"
+    if report_all:
+        names = {"slice:parameters": "every parameter set is delivered exactly once, in order", "slice:compiled_parameters": "the compiled parameter sets are read exactly once, in order",
+                 "slice:same-bound": "a batch pairs parameter sets with the compiled sets of the same rows", "counter-once-per-round": "batchnum counts the batches from 1",
+                 "batch-fields": "the yielded fields describe the batch", "total-batches": "total_batches is the number of batches delivered"}
+        for k, what in names.items():
+            bad = problems.get(k) if k not in stale else None
+            ctx.check(bad is None, f"{base}:{k}", f"not `{what}`: {bad[0] if bad else ''}", f"{what}: {ok_detail}", loc)
+        ctx.check(not stale, f"{base}:bound-stable",
+                  "a value that bounds the batch loop or describes the batches is computed from the page size before the page size is reduced "
+                  f"(insertmanyvalues_max_parameters): {'; '.join(v[0] for v in list(stale.values())[:2])}",
+                  f"every value derived from `{size_p}` follows its last reduction: {ok_detail}", loc)
+    first = next(iter(problems.values()))[0] if problems else ""
+    ctx.check(not problems, f"{base}:every-parameter-set-delivered-once-in-order",
+              f"executing the batch bookkeeping on a model: {first}", ok_detail, loc)
+
+
+def _brief(xs):
+    xs = list(xs)
+    if len(xs) > 6 and xs == list(range(xs[0], xs[0] + len(xs))):
+        return f"[{xs[0]}..{xs[-1]}]"
+    return str(xs[:8])[:-1] + (", ...]" if len(xs) > 8 else "]")
+
+
+
+@R.rule("C12-R1", floor=10, template="T-SIBLING/T-FLOW",
+        desc="compiler-level batching: same slice bound read and consumed on both parallel lists, one yield and one "
+             "counter increment per round, batch fields carry the matching slices, total_batches == number of "
+             "rounds, row-at-a-time branch pairs the two lists one to one")
+def r1(ctx):
+    f = ctx.func(CB)
+    g = ctx.cfg(f)
+    pm = f.module.parents()
+    fields = _batch_fields(ctx)
+    base = f.key
+    params_p, cparams_p = f.params[2], f.params[3]
+    # the two working lists: local = list(<param>)
+    work = {}
+    for n, v, st in name_stores(f.node):
+        v2 = _strip_cast(v) if v is not None else None
+        if isinstance(v2, ast.Call) and call_name(v2) == "list" and len(v2.args) == 1 and isinstance(v2.args[0], ast.Name) \
+                and v2.args[0].id in (params_p, cparams_p):
+            work[v2.args[0].id] = n
+    # idiom A: working copies `L = list(parameters)`, `while L:` with head slices `L[0:n]` consumed by `L[0:n] = []`
+    idiom_a = set(work) == {params_p, cparams_p}
+    L, CL = (work[params_p], work[cparams_p]) if idiom_a else (None, None)
+    def _loop_test_list(t):
+        """`while L:` / `while len(L) > 0:` / `while len(L):` / `while L != []:` -> L"""
+        t = _strip_cast(t)
+        if isinstance(t, ast.Name):
+            return t.id
+        if isinstance(t, ast.Call) and call_name(t) == "len" and len(t.args) == 1 and isinstance(t.args[0], ast.Name):
+            return t.args[0].id
+        if isinstance(t, ast.Compare) and len(t.ops) == 1:
+            l, r = t.left, t.comparators[0]
+            if isinstance(l, ast.Call) and call_name(l) == "len" and len(l.args) == 1 and isinstance(l.args[0], ast.Name) \
+                    and isinstance(r, ast.Constant) and (
+                        (isinstance(t.ops[0], (ast.Gt, ast.NotEq)) and r.value == 0) or (isinstance(t.ops[0], ast.GtE) and r.value == 1)):
+                return l.args[0].id
+            if isinstance(l, ast.Name) and isinstance(t.ops[0], ast.NotEq) and isinstance(r, ast.List) and not r.elts:
+                return l.id
+        return None
+
+    loops = [n for n in walk_local(f.node) if isinstance(n, ast.While) and _loop_test_list(n.test) in (L, CL)] if idiom_a else []
+    idiom_a = idiom_a and len(loops) == 1
+    if idiom_a:
+        w = loops[0]
+    else:
+        # any other loop shape (offset slices in a `for` over range(), islice ...): the round structure is found from the
+        # yield, the bookkeeping is judged by executing it (see _r1_by_execution)
+        cands = _batch_loops(f, pm, params_p, cparams_p)
+        ctx.require(len(cands) == 1, f"batch loop not found ({len(cands)} loops outside the row-at-a-time branch yield a batch)")
+        w = cands[0]
+    reads, bound = _r1_slices(ctx, f, w, base, L, CL) if idiom_a else ({}, None)
+    # (b) exactly one yield / one counter increment per round
+    tnode = g.nodes_for(w)
+    ctx.require(len(tnode) == 1, "loop head node not unique")
+    starts = [b for b, lab in g.succ[tnode[0]] if lab == "true"]
+    ynodes = [n.id for n in g.nodes if n.kind == "stmt" and isinstance(n.stmt, ast.Expr) and isinstance(n.stmt.value, ast.Yield)
+              and any(a is w for a in _ancestors(pm, n.stmt))]
+    ctx.require(ynodes, "no yield in the batch loop")
+
+    def once(nodes, what, key):
+        miss = g.must_pass(starts, tnode, nodes, edge_ok=lambda a, b, l: l != "exc")
+        twice = None
+        for y in nodes:
+            p = g.witness([y], nodes, avoid=tnode, edge_ok=lambda a, b, l: l != "exc")
+            if p is not None:
+                twice = g.describe_path(p)
+        ctx.check(miss is None and twice is None, key,
+                  f"{what} does not happen exactly once per round ({'a round can skip it' if miss else 'it can happen twice in a round'})",
+                  f"exactly once per round", f"{f.module.path}:{w.lineno}", miss or twice)
+
+    once(ynodes, "yield of the batch", f"{base}:one-yield-per-round")
+    ycall = _yielded_ctor(g.node(ynodes[0]).stmt.value.value, w)
+    ctx.require(isinstance(ycall, ast.Call) and (call_name(ycall) or "").endswith("_InsertManyValuesBatch"), "batch loop does not yield _InsertManyValuesBatch(...)")
+    ya = _ctor_args(ycall, fields)
+    if idiom_a:
+        counter = ya.get("batchnum")
+        ctx.require(isinstance(counter, ast.Name), "batchnum field is not a local counter")
+        incs = [n.id for n in g.nodes if n.kind == "stmt" and isinstance(n.stmt, ast.AugAssign) and isinstance(n.stmt.target, ast.Name)
+                and n.stmt.target.id == counter.id and isinstance(n.stmt.op, ast.Add) and unparse(n.stmt.value) == "1"
+                and any(a is w for a in _ancestors(pm, n.stmt))]
+        if not incs:
+            ctx.violation(f"{base}:counter-once-per-round", f"batch counter `{counter.id}` is never incremented in the batch loop", f"{f.module.path}:{w.lineno}")
+        else:
+            once(incs, f"`{counter.id} += 1`", f"{base}:counter-once-per-round")
+        _r1_fields_and_total(ctx, f, g, w, base, L, CL, params_p, cparams_p, reads, bound, ya, ycall)
+    _r1_by_execution(ctx, f, pm, w, base, params_p, cparams_p, ya, report_all=not idiom_a)
     # (e) row-at-a-time branch
     fors = [n for n in walk_local(f.node) if isinstance(n, ast.For) and any(isinstance(x, ast.Yield) for x in ast.walk(n))
             and not any(a is w for a in _ancestors(pm, n)) and n is not w]
@@ -774,6 +1007,150 @@ def r5(ctx):
     SC.sentinel_negative_increment(ctx, configurable)
 
 
+PERS = "orm/persistence.py"
+
+
+@R.rule("C12-R6", floor=1, template="T-PATH/T-SIBLING",
+        desc="unit of work: an executemany INSERT whose RETURNING rows (inserted_primary_key_rows / "
+             "returned_defaults_rows) are paired positionally with the flushed states has been given "
+             "sort_by_parameter_order on every path to the execute() call, whichever return_defaults()/returning() "
+             "call of the function configured the RETURNING")
+def r6(ctx):
+    from . import _helpers_str2_e as SE
+    from ..cfg import no_exc
+    f = ctx.func(f"{PERS}::_emit_insert_statements")
+    g = ctx.cfg(f)
+    pm = f.module.parents()
+    defs = RD.single_defs(f.node)
+    ROWS = ("inserted_primary_key_rows", "returned_defaults_rows")
+    # consumers: loops / comprehensions that iterate over <result>.inserted_primary_key_rows (zipped with the records)
+    consumers = []
+    for n in walk_local(f.node):
+        iters = []
+        if isinstance(n, (ast.For, ast.AsyncFor)):
+            iters = [n.iter]
+        elif isinstance(n, (ast.ListComp, ast.SetComp, ast.DictComp, ast.GeneratorExp)):
+            iters = [gen.iter for gen in n.generators]
+        for it in iters:
+            recv = {x.value.id for x in ast.walk(it) if isinstance(x, ast.Attribute) and x.attr in ROWS and isinstance(x.value, ast.Name)}
+            if recv:
+                consumers.append((n, recv))
+    ctx.require(consumers, "no loop over <result>.inserted_primary_key_rows / returned_defaults_rows in _emit_insert_statements")
+    for cons, recvs in consumers:
+        cst = cons if isinstance(cons, ast.stmt) else enclosing_stmt(pm, cons)
+        cnodes = g.nodes_for(cst)
+        ctx.require(cnodes, "consumer of the RETURNING rows not in the CFG")
+        key = f"{f.key}:rows-paired-with-states-are-sorted-by-parameter-order"
+        # the execute() call(s) whose result is consumed
+        execs = []
+        for n in g.nodes:
+            st = n.stmt
+            if n.kind == "stmt" and isinstance(st, ast.Assign) and any(isinstance(t, ast.Name) and t.id in recvs for t in st.targets):
+                v = _strip_cast(st.value)
+                if isinstance(v, ast.Call) and isinstance(v.func, ast.Attribute) and v.func.attr == "execute" and v.args:
+                    rdefs = [m.id for m in g.nodes if m.kind == "stmt" and m.id != n.id and any(nm in recvs for nm in SE.stored_names(m.stmt))]
+                    if g.witness([n.id], cnodes, avoid=rdefs, edge_ok=no_exc) is not None:
+                        execs.append((n.id, v))
+        ctx.require(execs, f"the execute() call that produces `{sorted(recvs)}` was not found")
+        # what is known to hold where the rows are consumed (plain locals / parameters only)
+        atoms = RD.atoms_of(RD.guards_of(g, pm, f.node, cst, defs))
+        assume = {a: p for a, p in atoms if a.isidentifier()}
+        for enode, ecall in execs:
+            a0 = ecall.args[0]
+            while isinstance(a0, ast.Call) and isinstance(a0.func, ast.Attribute):
+                a0 = a0.func.value
+            ctx.require(isinstance(a0, ast.Name), f"statement argument of `{unparse(ecall)[:50]}` is not a local")
+            S = a0.id
+            loop = next((x for x in ancestors(pm, g.node(enode).stmt) if isinstance(x, (ast.For, ast.While, ast.AsyncFor))), None)
+            header = set(g.nodes_for(loop)) if loop is not None else set()
+            # definitions of the statement local: fresh ones (value does not read S) restart the obligation
+            flagged, plain, fresh = [], [], []
+            flag_values = set()
+            for n in g.nodes:
+                st = n.stmt
+                if n.kind != "stmt" or not isinstance(st, (ast.Assign, ast.AnnAssign)) or st.value is None:
+                    continue
+                tg = st.targets if isinstance(st, ast.Assign) else [st.target]
+                if not any(isinstance(t, ast.Name) and t.id == S for t in tg):
+                    continue
+                if not any(isinstance(x, ast.Name) and x.id == S for x in ast.walk(st.value)):
+                    fresh.append(n.id)
+                    continue
+                rcalls = [c for c in calls_in(st.value) if isinstance(c.func, ast.Attribute) and c.func.attr in ("return_defaults", "returning")]
+                ok = False
+                for c in rcalls:
+                    for k in c.keywords:
+                        if k.arg == "sort_by_parameter_order":
+                            try:
+                                if SE.possible_truth(RD.expand(k.value, defs), assume) == {True}:
+                                    ok = True
+                                    flag_values.add(unparse(k.value))
+                            except SE.Unsupported:
+                                pass
+                if ok:
+                    flagged.append(n.id)
+                elif rcalls:
+                    plain.append(n.id)
+                else:
+                    # the statement is handed to something else and rebound: RETURNING may be configured there
+                    others = [c for c in calls_in(st.value) if not (isinstance(c.func, ast.Attribute) and isinstance(c.func.value, ast.Name) and c.func.value.id == S)]
+                    ctx.require(not others or not any(any(isinstance(x, ast.Name) and x.id == S for x in ast.walk(a)) for c in others for a in list(c.args) + [k.value for k in c.keywords]),
+                                f"`{unparse(st)[:70]}` passes the statement to a helper: not followed (not understood)")
+            ctx.require(flagged or plain, "no return_defaults()/returning() call on the INSERT statement found")
+            starts = [s for s in fresh if enode in g.reachable([s], avoid=header, edge_ok=no_exc)] or [g.entry]
+            names = set(assume)
+            stores_of = [m.id for m in g.nodes if m.kind in ("stmt", "for") and m.stmt is not None and SE.stored_names(m.stmt) & names]
+
+            decided: Dict[int, bool] = {}
+            for t in g.nodes:
+                if t.kind != "test":
+                    continue
+                try:
+                    vals = SE.possible_truth(RD.expand(t.stmt.test, defs), assume)
+                except SE.Unsupported:
+                    continue
+                if len(vals) != 1:
+                    continue
+                # the assumption describes the state at the execute(): only tests after the last binding of its names count
+                later = g.reachable([t.id], avoid=header, edge_ok=no_exc)
+                if any(s in later and SE.stored_names(g.node(s).stmt) & _names_behind(t.stmt.test, defs) for s in stores_of):
+                    continue
+                decided[t.id] = next(iter(vals))
+
+            def edge_ok(a, b, lab):
+                if lab == "exc" or lab == "loop":
+                    return False
+                if a in decided and lab in ("true", "false"):
+                    return (lab == "true") == decided[a]
+                return True
+
+            # bindings of an assumed local to the opposite constant (`do_executemany = False`) are not on a path to this execute()
+            contra = set()
+            for sid in stores_of:
+                st = g.node(sid).stmt
+                if isinstance(st, ast.Assign) and len(st.targets) == 1 and isinstance(st.targets[0], ast.Name) and st.targets[0].id in assume \
+                        and isinstance(st.value, ast.Constant) and bool(st.value.value) != assume[st.targets[0].id]:
+                    later = g.reachable([sid], avoid=header, edge_ok=no_exc, include_starts=False)
+                    if not any(o in later and st.targets[0].id in SE.stored_names(g.node(o).stmt) for o in stores_of if o != sid):
+                        contra.add(sid)
+            w = g.must_pass(starts, [enode], set(flagged) | contra, edge_ok=edge_ok)
+            skipped = [f"L{g.node(p_).stmt.lineno} `{unparse(g.node(p_).stmt.value)[:70]}`" for p_ in plain]
+            ctx.check(w is None, key,
+                      f"the executemany INSERT `{unparse(ecall)[:60]}` can be reached without `{S}` having been given "
+                      f"sort_by_parameter_order={'/'.join(sorted(flag_values)) or 'True'}"
+                      + (f" (RETURNING is configured without it by {skipped})" if skipped else "")
+                      + f": its rows are then paired positionally ({'/'.join(ROWS)}) with the states, and a backend that "
+                      "returns them in another order gives every object another row's primary key / defaults",
+                      f"{len(flagged)} flagged return_defaults()/returning() call(s) cover every path to the execute()",
+                      f"{f.module.path}:{ecall.lineno}", w)
+
+
+def _names_behind(test, defs):
+    """the locals a test reads, boolean locals / aliases expanded"""
+    t = RD.expand(test, defs)
+    return {x.id for x in ast.walk(t) if isinstance(x, ast.Name)} | {x.id for x in ast.walk(test) if isinstance(x, ast.Name)}
+
+
 # ---------------------------------------------------------------------- self-test battery
 R.mutant("compiled-slice-off-by-one", COMP,
          sub("            compiled_batch = compiled_batches[0:batch_size]\n", "            compiled_batch = compiled_batches[0 : batch_size + 1]\n"), "C12-R1")
@@ -1015,3 +1392,75 @@ R.mutant("rob-extracted-lookup-with-the-wrong-table", DEF,
                                  "                            dict(enumerate(rows)), imv_batch\n                        )\n"),
                sub(_DOEXEC, "    def _rows_in_parameter_order(self, by_key, batch):\n"
                             "        return [by_key[k] for k in batch.sentinel_values]\n\n" + _DOEXEC)), "C12-R2")
+
+# ---- str2-e (round-2 seeds C12_3 / C12_4): the batch bookkeeping judged by executing its program slice (R1, any loop shape),
+# ---- sort_by_parameter_order on every path to the unit of work's executemany INSERT (R6)
+_WORK_COPIES = ('        batches = cast("List[Sequence[Any]]", list(parameters))\n        compiled_batches = cast(\n'
+                '            "List[Sequence[Any]]", list(compiled_parameters)\n        )\n')
+_NO_COPIES = ('        batches = cast("Sequence[Sequence[Any]]", parameters)\n        compiled_batches = cast(\n'
+              '            "Sequence[Sequence[Any]]", compiled_parameters\n        )\n')
+_WHILE_HEAD = ("        while batches:\n            batch = batches[0:batch_size]\n            compiled_batch = compiled_batches[0:batch_size]\n\n"
+               "            batches[0:batch_size] = []\n            compiled_batches[0:batch_size] = []\n\n"
+               "            if batches:\n                current_batch_size = batch_size\n            else:\n                current_batch_size = len(batch)\n")
+_FOR_HEAD = ("        for batchnum in range(1, total_batches + 1):\n            offset = (batchnum - 1) * batch_size\n"
+             "            batch = batches[offset : offset + batch_size]\n            compiled_batch = compiled_batches[offset : offset + batch_size]\n"
+             "            current_batch_size = len(batch)\n")
+_COUNTER_INIT = "        batchnum = 1\n" + _TB + "\n"
+_COUNTER_INC = "                False,\n            )\n            batchnum += 1\n"
+_LENPARAMS = "        lenparams = len(parameters)\n"
+
+
+def _offset_loop(head=_FOR_HEAD, init=_TB + "\n", hoisted=""):
+    return chain(sub(_WORK_COPIES, _NO_COPIES), sub(_COUNTER_INIT, init), sub(_WHILE_HEAD, head),
+                 sub(_COUNTER_INC, "                False,\n            )\n"), sub(_LENPARAMS, _LENPARAMS + hoisted))
+
+
+R.mutant("benign-str2-offset-slices-in-a-for-loop-over-range", COMP, _offset_loop(), None)
+# essence of seed C12_3: total_batches (now the loop bound) hoisted above the insertmanyvalues_max_parameters reduction
+R.mutant("str2-offset-loop-bound-computed-before-page-size-reduction", COMP, _offset_loop(init="", hoisted=_TB + "\n"), "C12-R1")
+R.mutant("str2-offset-loop-drops-the-partial-batch", COMP,
+         _offset_loop(head=_FOR_HEAD.replace("range(1, total_batches + 1)", "range(1, lenparams // batch_size + 1)")), "C12-R1")
+R.mutant("str2-offset-loop-compiled-slice-shifted", COMP,
+         _offset_loop(head=_FOR_HEAD.replace("compiled_batches[offset : offset + batch_size]", "compiled_batches[offset + 1 : offset + 1 + batch_size]")), "C12-R1")
+R.mutant("str2-offset-loop-overlapping-pages", COMP,
+         _offset_loop(head=_FOR_HEAD.replace("offset = (batchnum - 1) * batch_size", "offset = (batchnum - 1) * (batch_size - 1)")), "C12-R1")
+R.mutant("benign-str2-while-loop-with-a-cursor", COMP, chain(
+    sub(_WORK_COPIES, _NO_COPIES),
+    sub(_WHILE_HEAD, "        done = 0\n        while done < lenparams:\n            batch = batches[done : done + batch_size]\n"
+                     "            compiled_batch = compiled_batches[done : done + batch_size]\n            done += len(batch)\n            current_batch_size = len(batch)\n")), None)
+R.mutant("str2-while-loop-with-a-cursor-advanced-by-the-page-size-minus-one", COMP, chain(
+    sub(_WORK_COPIES, _NO_COPIES),
+    sub(_WHILE_HEAD, "        done = 0\n        while done < lenparams:\n            batch = batches[done : done + batch_size]\n"
+                     "            compiled_batch = compiled_batches[done : done + batch_size]\n            done += max(1, batch_size - 1)\n            current_batch_size = len(batch)\n")), "C12-R1")
+R.mutant("str2-total-batches-hoisted-above-page-size-reduction", COMP,
+         chain(sub(_COUNTER_INIT, "        batchnum = 1\n"), sub(_LENPARAMS, _LENPARAMS + _TB + "\n")), "C12-R1")
+# R6
+_VERSION_RD = ("                statement = statement.return_defaults(\n                    mapper.version_id_col,\n"
+               "                    sort_by_parameter_order=bookkeeping,\n                )\n")
+_PK_RD = ("                statement = statement.return_defaults(\n"
+          "                    *table.primary_key, sort_by_parameter_order=bookkeeping\n                )\n")
+R.mutant("str2-version-id-return-defaults-without-sort-flag", PERS,   # essence of seed C12_4
+         sub(_VERSION_RD, "                statement = statement.return_defaults(mapper.version_id_col)\n"), "C12-R6")
+R.mutant("str2-primary-key-return-defaults-without-sort-flag", PERS,
+         sub(_PK_RD, "                statement = statement.return_defaults(*table.primary_key)\n"), "C12-R6")
+R.mutant("str2-version-id-return-defaults-sort-flag-false", PERS,
+         sub(_VERSION_RD, "                statement = statement.return_defaults(\n                    mapper.version_id_col,\n"
+                          "                    sort_by_parameter_order=False,\n                )\n"), "C12-R6")
+R.mutant("str2-primary-key-returning-only-when-no-server-defaults", PERS,
+         sub("            elif do_executemany:\n                statement = statement.return_defaults(\n                    *table.primary_key, sort_by_parameter_order=bookkeeping\n",
+             "            elif do_executemany and has_all_defaults:\n                statement = statement.return_defaults(\n                    *table.primary_key, sort_by_parameter_order=bookkeeping\n"), "C12-R6")
+R.mutant("benign-str2-sort-flag-through-a-local", PERS, chain(
+    sub("            records = list(records)\n\n            if returning_is_required_anyway or (\n",
+        "            records = list(records)\n            in_parameter_order = bookkeeping\n\n            if returning_is_required_anyway or (\n"),
+    sub(_VERSION_RD, "                statement = statement.return_defaults(\n                    mapper.version_id_col,\n"
+                     "                    sort_by_parameter_order=in_parameter_order,\n                )\n"),
+    sub(_PK_RD, "                statement = statement.return_defaults(\n                    *table.primary_key, sort_by_parameter_order=in_parameter_order\n                )\n")), None)
+R.mutant("benign-str2-version-test-inverted", PERS,
+         sub("            if mapper.version_id_col is not None:\n" + _VERSION_RD + "            elif do_executemany:\n" + _PK_RD,
+             "            if mapper.version_id_col is None:\n                if do_executemany:\n"
+             + "".join("    " + l + "\n" for l in _PK_RD.splitlines())
+             + "            else:\n" + _VERSION_RD), None)
+R.mutant("benign-str2-version-call-drops-flag-after-unconditional-pk-call", PERS,
+         sub("            if mapper.version_id_col is not None:\n" + _VERSION_RD + "            elif do_executemany:\n" + _PK_RD,
+             "            if do_executemany:\n" + _PK_RD + "            if mapper.version_id_col is not None:\n"
+             "                statement = statement.return_defaults(mapper.version_id_col)\n"), None)
